@@ -26,7 +26,7 @@ from kopf._core.reactor import orchestration, queueing
 logging.disable(logging.CRITICAL)
 ENCODED = [watching.infinite_watch, watching.continuous_watch, watching.watch_objs, watching.streaming_block,
            fetching.list_objs, orchestration.adjust_tasks, orchestration.terminate_redundancies,
-           orchestration.spawn_missing_watchers, orchestration.spawn_missing_peerings]
+           orchestration.spawn_missing_watchers, orchestration.spawn_missing_peerings, orchestration.orchestrator]
 META = {
     'bounds': 'H1: one resource/namespace, one object, <=3 changes at symbolic gaps, <=3 connections with a symbolic fault each (EOF, '
               'connection error, timeout, ERROR 410, 429 on connect, unknown ERROR, BOOKMARK then EOF) after a symbolic number of '
@@ -341,6 +341,96 @@ def h_adjust(n: int, r1a: bool, r2a: bool, n1a: bool, n2a: bool, r1b: bool, r2b:
     return vkopf.verdict(ok)
 
 
+def run_orchestrator(revs, gaps, linger, ties=()):
+    """The real orchestration.orchestrator() reacting to insight revisions made by an observer (under the insights'
+    condition, as observation.py does); the stand-in watcher takes `linger` seconds to honour its cancellation."""
+    loop = SymLoop()
+    started, ended = [], []
+
+    async def dummy_processor(**kw):
+        return None
+
+    async def fake_watcher(*, resource, namespace, **kw):
+        key = (resource.plural, namespace)
+        started.append(key)
+        try:
+            await asyncio.Event().wait()
+        except asyncio.CancelledError:
+            if linger > 0:
+                try:
+                    await asyncio.sleep(linger)
+                except asyncio.CancelledError:
+                    pass
+            raise
+        finally:
+            ended.append(key)
+
+    async def main():
+        orig = queueing.watcher
+        queueing.watcher = fake_watcher
+        try:
+            settings = configuration.OperatorSettings()
+            settings.peering.standalone = True
+            insights = references.Insights()
+            paused = aiotoggles.ToggleSet(any)
+            task = asyncio.create_task(orchestration.orchestrator(
+                processor=dummy_processor, settings=settings, identity=peering.Identity('me'), insights=insights,
+                operator_paused=paused))
+            await asyncio.sleep(0)
+            want = set()
+            for (r1, r2, nss), g in zip(revs, gaps):
+                if g > 0:
+                    await asyncio.sleep(g)
+                async with insights.revised:
+                    insights.watched_resources.clear()
+                    insights.namespaces.clear()
+                    if r1:
+                        insights.watched_resources.add(R1)
+                    if r2:
+                        insights.watched_resources.add(R2)
+                    for ns in nss:
+                        insights.namespaces.add(ns)
+                    insights.revised.notify_all()
+                want = set()
+                for res, on in ((R1, r1), (R2, r2)):
+                    if on:
+                        for ns in nss:
+                            want.add((res.plural, ns if res.namespaced else None))
+            await asyncio.sleep(3 * linger + 30)
+            live = sorted(k for k in set(started) for _ in range(started.count(k) - ended.count(k)))
+            task.cancel()
+            await asyncio.gather(task, return_exceptions=True)
+            left = sorted(k for k in set(started) for _ in range(started.count(k) - ended.count(k)))
+            await cancel_all_others()
+            return live, want, left
+        finally:
+            queueing.watcher = orig
+    return loop.run(main(), ties=ties, max_steps=20000)
+
+
+def h_orchestrator(g1: int, g2: int, linger: int, r2a: bool, r2b: bool, r2c: bool, na: int, nb: int, nc: int, t0: bool, t1: bool) -> bool:
+    """
+    pre: g1 >= 0 and g2 >= 0 and linger >= 0
+    pre: 1 <= na <= 7 and 1 <= nb <= 7 and 1 <= nc <= 7
+    post: _ == True
+    """
+    vkopf.begin_path()
+    na, nb, nc = vkopf.pin('na', na), vkopf.pin('nb', nb), vkopf.pin('nc', nc)
+
+    def nsset(m):      # a non-empty subset of {a, b, c} (empty sets: known finding F10)
+        return [x for i, x in enumerate(('a', 'b', 'c')) if m & (1 << i)]
+    revs = [(True, r2a, nsset(na)), (True, r2b, nsset(nb)), (True, r2c, nsset(nc))]
+    try:
+        live, want, left = run_orchestrator(revs, [0, g1, g2], linger, ties=[t0, t1])
+    except (Deadlock, Diverged, Livelock):
+        return vkopf.verdict(False)
+    ok = live == sorted(want)          # exactly one watch per served pair, none else -- also when revisions race
+    ok = ok and not left               # and everything is stopped when the orchestrator is cancelled
+    if linger > g2:
+        vkopf.witness('revision_during_adjustment')
+    return vkopf.verdict(ok)
+
+
 def obligations():
     none = 7
     obs = split(Ob('h_watch', {'faults': 2, 'changes': 2}, timeout=3000, path_timeout=300, twins=['raised', 'relisted']),
@@ -353,5 +443,7 @@ def obligations():
                  f0=list(range(8)), f1=list(range(8)))
     obs += split(Ob('h_adjust', {}, timeout=2400, twins=['changed']), n=[1, 2])
     obs += split(Ob('h_adjust', {}, timeout=3400, tiers=('thorough',)), n=[3])
+    obs += split(Ob('h_orchestrator', {}, timeout=2400, path_timeout=300, twins=['revision_during_adjustment']), na=[3], nb=[2, 1], nc=[4, 6])
+    obs += split(Ob('h_orchestrator', {}, timeout=3000, path_timeout=300, tiers=('thorough',)), na=[1, 3, 7], nb=[1, 2, 5], nc=[2, 4, 6])
     obs.append(Ob('h_adjust', {'exclude_known': False, 'only_f10': True, 'pin': {'n': 2}}, expect='counterexample', finding='F10', timeout=600))
     return obs
